@@ -23,7 +23,7 @@ FUNCTIONS = ["AbstractOption._validate_flags/_validate_short_name/_add_default_f
              "Argument._validate_flags/_add_default_flags/__init__/set_default/parse + predicates", "CommandOption.__init__/_validate_*_alias",
              "utils.string.parse_string/parse_boolean/parse_int/parse_float"]
 PART = {}
-BOUNDS = {"quick": "E2: every 16-bit flag word x short-name presence (one unsat query per obligation); E1 constructors: structured flag words (6 low bits x type-bit selections x NULLABLE x undefined bits) for options, [0,1024) for arguments x short name x default kind {none, scalar, list}; "
+BOUNDS = {"quick": "E2: every 16-bit flag word x short-name presence (one unsat query per obligation); E1 constructors: structured flag words (6 low bits x type-bit selections x NULLABLE x undefined bits) for options, [0,1024) for arguments x short name x default kind {none, scalar, list, empty string, 0, empty list}; "
                    "names: length <= 3 over {a,Z,1,-,_,e-acute,newline} with and without dash prefix; conversions: int text of every int with |n| <= 10**6, texts of length <= 3 over {1,-,.,e,n,u,l,i,f,space}",
           "thorough": "same with names up to length 4 and conversion texts up to length 4"}
 OUTSIDE = ["parse_float(repr(x)) == x for arbitrary floats: repr()/float() are C code and realise the symbolic value; only a pinned list of floats is pushed through (reported as concretised, not decided)",
@@ -215,7 +215,12 @@ def _native_post(cls, f, nf, hs):
 
 # ---------------------------------------------------------------- E1: whole constructors
 
-DEFAULTS = [None, "x", ["x"]]
+DEFAULTS = [None, "x", ["x"], "", 0, []]          # none / scalar / list / falsy scalars / empty list
+DEFAULT_NAMES = ["none", "scalar", "list", "empty-string", "zero", "empty-list"]
+
+
+def _is_list(dk):
+    return dk in (2, 5)
 
 
 TYPE_SEL = [0, 128, 256, 512, 1024, 128 | 256, 512 | 1024, 256 | 1024]
@@ -256,7 +261,7 @@ def option_ctor(low: int, tsel: int, nullable: bool, undefined: bool) -> bool:
     pl, ps = f % 2 == 1, (f // 2) % 2 == 1
     flags_ok = not ((pl and ps) or (ps and not has_short) or (no_value and (req or opt or multi)) or (opt and multi) or ntypes > 1)
     value_less = no_value or not (req or opt or multi)
-    default_ok = not (value_less and dk != 0) and not (multi and dk == 1)
+    default_ok = not (value_less and dk != 0) and not (multi and dk != 0 and not _is_list(dk))
     if accepted != (flags_ok and default_ok):
         return False
     if not accepted:
@@ -273,7 +278,7 @@ def option_ctor(low: int, tsel: int, nullable: bool, undefined: bool) -> bool:
         return False
     if multi and not (o.is_multi_valued() and o.is_value_required() and isinstance(o.default, list)):
         return False
-    if multi and o.default != ([] if dk == 0 else ["x"]):
+    if multi and o.default != ([] if dk == 0 else DEFAULTS[dk]):
         return False
     if not value_less and not multi and o.default != DEFAULTS[dk]:
         return False
@@ -310,7 +315,7 @@ def argument_ctor(flags: int) -> bool:
     required, optional, multi = f % 2 == 1, (f // 2) % 2 == 1, (f // 4) % 2 == 1
     ntypes = (f // 16) % 2 + (f // 32) % 2 + (f // 64) % 2 + (f // 128) % 2
     flags_ok = not ((required and optional) or ntypes > 1)
-    default_ok = not (required and dk != 0) and not (multi and dk == 1)
+    default_ok = not (required and dk != 0) and not (multi and dk != 0 and not _is_list(dk))
     if accepted != (flags_ok and default_ok):
         return False
     if not accepted:
@@ -323,8 +328,8 @@ def argument_ctor(flags: int) -> bool:
     if a.is_multi_valued() != multi:
         return False
     if multi:
-        return a.default == ([] if dk == 0 else ["x"])
-    return a.default == DEFAULTS[dk]
+        return a.default == ([] if dk == 0 else DEFAULTS[dk])
+    return a.default == DEFAULTS[dk] and type(a.default) is type(DEFAULTS[dk])
 
 
 # ---------------------------------------------------------------- E1: names
@@ -540,13 +545,13 @@ def conditions(tier):
                           "replay": _replay_flags,
                           "bounds": "every 16-bit flag word; source of _validate_flags/_validate_short_name/_add_default_flags translated to QF_BV"})
     for hs in (True, False):
-        for dk in range(3):
-            conds.append({"name": "option_ctor[%s,default=%s]" % ("short" if hs else "noshort", ["none", "scalar", "list"][dk]), "fn": option_ctor, "timeout": t,
+        for dk in range(len(DEFAULTS)):
+            conds.append({"name": "option_ctor[%s,default=%s]" % ("short" if hs else "noshort", DEFAULT_NAMES[dk]), "fn": option_ctor, "timeout": t,
                           "part": {"has_short": hs, "dk": dk},
                           "bounds": "flag words = any of the 6 low bits x type bits in {none, each single type, three conflicting pairs} x NULLABLE x two undefined bits (64, 4096)"})
     conds.append({"name": "option_ctor_twin", "fn": option_ctor_twin, "timeout": t, "expect": "refute", "bounds": "reachability twin"})
-    for dk in range(3):
-        conds.append({"name": "argument_ctor[default=%s]" % ["none", "scalar", "list"][dk], "fn": argument_ctor, "timeout": t, "part": {"dk": dk},
+    for dk in range(len(DEFAULTS)):
+        conds.append({"name": "argument_ctor[default=%s]" % DEFAULT_NAMES[dk], "fn": argument_ctor, "timeout": t, "part": {"dk": dk},
                       "bounds": "every flag word in [0,1024) (all defined argument bits + two undefined)"})
     nmax = 3 if quick else 4
     for n in range(0, nmax + 1):
